@@ -58,6 +58,12 @@ def build(tier):
                          symbolic=f"doc lines of lengths {l1} and {l2}: arbitrary code points (no LF, CR, ']]'); 0 = empty line",
                          bound=f"two adjacent documented commands ({a}, {b}); line lengths {l1} / {l2}"))
     # doccomment attached to the module: body lines incl. leading/inner empty lines reach the module directive verbatim
+    # a documented definition right after a declaration that still waits for its implementation: both doccomments reach the page
+    for (a_, b_) in ((("ct_add_test!", "function"), ("cpp_member!", "macro")) if quick else
+                     (("ct_add_test!", "function"), ("cpp_member!", "macro"), ("ct_add_section!", "macro"), ("cpp_constructor!", "function"))):
+        obs.append(vf.CH(f"C01.c documented {b_} right after a pending {a_[:-1]} declaration: both doccomments reach the page", "c01_pair.py",
+                         dict(K1=a_, K2=b_, LENS1=(2, 0, 1), LENS2=(1, 2), IND="  ", NCP=6, PAD=0), timeout=240 if quick else 1200, encodes=ENC_TEXT,
+                         symbolic="every character of both doccomments", bound="line lengths (2, 0, 1) / (1, 2); containment of the two paragraphs, not page equality"))
     C12 = importlib.import_module('C12')
     for (hn, bl) in (((True, (0, 2, 0, 1)), (False, (2, 0))) if quick else ((True, (0, 3, 0, 0, 2)), (False, (2, 0, 3)), (True, (0,)))):
         o = C12.mod_ob(hn, 2, bl, 2, True, 240 if quick else 1200)
